@@ -290,18 +290,20 @@ class Gen:
                "monitors": None, "batch_period": None}
         x = r.random()
         if x < 0.35:
-            fee = r.choice([0, 1, 5000, 10_000, 100_000, 100_001])
+            fee = r.choice([0, 1, 5000, 10_000, 10_000, 100_000, 100_001, 2 ** 128 - 1])
             tre = r.choice([None, su.treasury, su.treasury2])
             msg["protocol_fee_config"] = {"dao_treasury_fee": str(fee), "treasury_address": tre}
         elif x < 0.55:
             msg["protocol_chain_config"] = su.proto_cfg(oracle_address=r.choice([None, su.oracle]),
                                                         minimum_liquid_stake_amount=str(r.choice([1, 100, 1000])))
+            if r.random() < 0.15:
+                msg["protocol_chain_config"]["ibc_channel_id"] = r.choice(["channel-+7", "channel-", "channel-x", "channel-07"])
         elif x < 0.7:
-            msg["batch_period"] = r.choice([0, 1, 3600, DAY])
+            msg["batch_period"] = r.choice([0, 1, 3600, DAY, DAY, 2 ** 64 - 1])
         elif x < 0.8:
             msg["monitors"] = r.choice([[], su.monitors[:1], su.monitors, su.monitors + [su.users[0]]])
         elif x < 0.9:
-            msg["native_chain_config"] = su.native_cfg(unbonding_period=r.choice([0, 1, DAY, 21 * DAY]),
+            msg["native_chain_config"] = su.native_cfg(unbonding_period=r.choice([0, 1, DAY, 21 * DAY, 21 * DAY, 2 ** 64 - 1]),
                                                        validators=r.choice([su.validators[:1], su.validators]))
         else:
             msg["protocol_fee_config"] = {"dao_treasury_fee": "10000", "treasury_address": r.choice([su.staker, "x", su.treasury.upper()])}
